@@ -269,12 +269,44 @@ def worker_C10_sub(payload):
 
 # ------------------------------------------------------------------------------------------
 # C11: inputs not consumed
+def _user_snapshot(objs):
+    """the public content of every user object as plain comparable values (DataFrames / arrays as nested lists)"""
+    def val(v):
+        if isinstance(v, pd.DataFrame):
+            return ("df", [str(c) for c in v.columns], [str(i) for i in v.index[:5]], len(v), [[repr(x) for x in row] for row in v.head(400).values.tolist()])
+        if isinstance(v, (pd.Series, np.ndarray)):
+            return ("arr", [repr(x) for x in np.asarray(v).ravel()[:2000].tolist()])
+        if isinstance(v, (list, tuple)):
+            return ("seq", [val(x) for x in v])
+        if isinstance(v, (int, float, str, bool, type(None), np.floating, np.integer, np.bool_)):
+            return repr(v)
+        return ("obj", type(v).__name__)
+    snap = {}
+    for name in ("soil", "crop", "initial_water_content", "irrigation_management", "field_management", "fallow_field_management", "groundwater", "co2_concentration"):
+        o = objs.get(name)
+        if o is None:
+            continue
+        for k, v in sorted(vars(o).items()):
+            snap["%s.%s" % (name, k)] = val(v)
+    snap["weather_df"] = val(objs["weather_df"])
+    return snap
+
+
 def _c11(payload):
     cfg = payload["cfg"]; reps = payload.get("reps", 2)
     viol = []
     objs = sim.build_objects(cfg)
     m = sim.AquaCropModel(**objs)
-    m.run_model(till_termination=True)
+    # time stepping must not touch the user's objects at all: what initialisation writes back into them (crop calendar,
+    # deepened profile, ...) is in place after _initialize(); the only field the steps may still update is the CO2
+    # object's current concentration (season-start adjustment)
+    m._initialize()
+    s1 = _user_snapshot(objs)
+    m.run_model(till_termination=True, initialize_model=False)
+    s2 = _user_snapshot(objs)
+    for k in s1:
+        if k != "co2_concentration.current_concentration" and s1[k] != s2.get(k):
+            viol.append(V("C11:user_object_changed_while_stepping:%s" % k, "the user's %s was %s after initialisation and is %s after the run" % (k, str(s1[k])[:80], str(s2.get(k))[:80])))
     t0 = tables_of(m)
     for i in range(reps):
         try:
